@@ -206,15 +206,18 @@ Definition struct_scope (fs : list field_spec) : list str * list str :=
 Definition struct_field_names (fs : list field_spec) : list str := fst (struct_scope fs).
 Definition struct_accessor_names (fs : list field_spec) : list str := snd (struct_scope fs).
 
-(** methods every generated struct type has (qt_struct.qtpl; RepairMasks* / AsUnion / TL2
-    methods are emitted only for some structs, they are listed because a field of those
-    structs may not carry the name) *)
-Definition struct_methods : list str := List.map lit
-  ["Reset"; "FillRandom"; "ReadTL1"; "WriteTL1General"; "WriteTL1"; "ReadTL1Boxed";
-   "WriteTL1BoxedGeneral"; "WriteTL1Boxed"; "String"; "ReadJSONGeneral"; "ReadJSON";
-   "WriteJSONGeneral"; "WriteJSON"; "WriteJSONOpt"; "MarshalJSON"; "UnmarshalJSON";
-   "CalculateLayout"; "InternalWriteTL2"; "WriteTL2"; "InternalReadTL2"; "ReadTL2";
-   "TLName"; "TLTag"; "RepairMasks"; "RepairMasksValue"; "AsUnion"; "ptr"]%string.
+(** methods of a generated struct type (qt_struct.qtpl).  [struct_methods_always]: emitted for
+    every struct; [struct_methods_closed]: every struct without nat parameters has them as
+    well; [struct_methods]: everything a struct may get (TL2 / random / union element /
+    typedef variants included) *)
+Definition struct_methods_always : list str := List.map lit
+  ["Reset"; "ReadTL1"; "WriteTL1"; "ReadTL1Boxed"; "WriteTL1Boxed"; "ReadJSONGeneral";
+   "WriteJSONGeneral"; "WriteJSON"; "WriteJSONOpt"; "TLName"; "TLTag"]%string.
+Definition struct_methods_closed : list str := struct_methods_always ++ List.map lit
+  ["String"; "ReadJSON"; "MarshalJSON"; "UnmarshalJSON"; "WriteTL1General"; "WriteTL1BoxedGeneral"]%string.
+Definition struct_methods : list str := struct_methods_closed ++ List.map lit
+  ["FillRandom"; "CalculateLayout"; "InternalWriteTL2"; "WriteTL2"; "InternalReadTL2"; "ReadTL2";
+   "RepairMasks"; "RepairMasksValue"; "AsUnion"; "ptr"]%string.
 
 (** additional methods of a function (a struct with a result type) *)
 Definition function_methods : list str := List.map lit
@@ -226,11 +229,7 @@ Definition function_methods : list str := List.map lit
 
 (** exported identifiers of internal/a_tlgen_helpers_code.go (qt_helpers.qtpl) *)
 Definition helper_idents : list str := List.map lit
-  ["Object"; "Function"; "TLItem"; "TLItemImpl"; "ItemsOrdered"; "ItemsByTag"; "ItemsByName";
-   "SetGlobalFactoryCreateForFunction"; "SetGlobalFactoryCreateForObject";
-   "SetGlobalFactoryCreateForEnumElement"; "SetGlobalFactoryCreateForFunctionBytes";
-   "SetGlobalFactoryCreateForObjectBytes"; "FillObject"; "FillFunction";
-   "UnionElement"; "Unused"; "ErrorClientWrite"; "ErrorClientDo"; "ErrorClientReadResult";
+  ["UnionElement"; "Unused"; "ErrorClientWrite"; "ErrorClientDo"; "ErrorClientReadResult";
    "ErrorServerHandle"; "ErrorServerRead"; "ErrorServerWriteResult"; "ErrorInvalidEnumTag";
    "ErrorInvalidUnionTag"; "ErrorInvalidUnionIndex"; "ErrorWrongSequenceLength";
    "ErrorInvalidUnionTagJSON"; "ErrorInvalidUnionLegacyTagJSON"; "ErrorInvalidJSON";
@@ -260,9 +259,9 @@ Definition consts_ok (names : list tlname) : bool := nodupb (List.map const_name
 Definition files_ok (names : list tlname) : bool :=
   nodupb (List.map file_key (dedup (List.map file_name names))).
 
-(** (c) struct scope: no field or accessor carries the name of a generated method *)
-Definition fields_ok (is_fn : bool) (fs : list field_spec) : bool :=
-  let ms := if is_fn then struct_methods ++ function_methods else struct_methods in
+(** (c) struct scope: no field or accessor carries the name of one of the methods [ms]
+    generated for the struct *)
+Definition fields_ok (ms : list str) (fs : list field_spec) : bool :=
   forallb (fun n => negb (mem n ms)) (struct_field_names fs ++ struct_accessor_names fs).
 
 (** (d) package internal (no --split-internal): the global type names, unique among
